@@ -16,7 +16,7 @@ func init() {
 		ID:       "C01",
 		Category: "model_checking",
 		Rule: "for every writer setting: (a) every string over {a,b} up to length 10 (14 thorough) and {a,b,c} up to 6 (9), and every content kind at every size of a dense ladder 0..300 plus windows around each internal threshold, as one Write + Close; " +
-			"(a') for the accelerated settings every ramp(k), k=1..300 (k consecutive byte values: every non-zero run length of the header's run-length coder), gap(k), k=1..255 (every zero run length) and Fibonacci-distributed alphabets of 2..40 symbols (Huffman depth beyond 15: length limiting), every period 1..64 at three sizes (long matches at every small distance), 48 variants of back-to-back far copies (tokens with the maximal number of extra bits), a single copy of every length 4..258 at the first and last distance of every distance symbol, every byte value as first and as second literal of a literal pair; " +
+			"(a') for the accelerated settings every ramp(k), k=1..300 (k consecutive byte values: every non-zero run length of the header's run-length coder), gap(k), k=1..255 (every zero run length) and Fibonacci-distributed alphabets of 2..40 symbols (Huffman depth beyond 15: length limiting), every period 1..64 at three sizes (long matches at every small distance), 48 variants of back-to-back far copies (tokens with the maximal number of extra bits), a single copy of every length 4..258 at the first and last distance of every distance symbol, every byte value as first and as second literal of a literal pair, all 256 byte values equally often plus a halving chain of 0..10 match lengths (256 or more codes of one length with longer ones behind them); " +
 			"(a'') token-cap straddle: incompressible / text prefixes of every length in [32690,32810) and [65400,65600) followed by a long run, a period-7 run or text, so that the last tokens of a full block are of every kind; " +
 			"(b) every sequence over {Write(piece), Flush}^<=d (d = 2 quick, 4 thorough) followed by Close with pieces chosen to hit the buffer-fill, slide, block-cap and wrap situations; " +
 			"non-trivial = the execution produced at least one compressed block from more than 8 bytes of data or contains a Flush",
@@ -178,10 +178,17 @@ func c01Harness(cfg *Cfg) func(x *mc.Exec) {
 			if !k.Accelerated() {
 				return
 			}
-			fam := x.Choose(7, "shape")
+			fam := x.Choose(8, "shape")
 			var d []byte
 			var nm string
 			switch fam {
+			case 7: // 256 literals of one code length plus a halving chain of match lengths
+				r := []int{1, 2, 4, 8}[x.Choose(4, "literal-repeats")]
+				m := x.Choose(11, "chain")
+				c := []int{1, 3}[x.Choose(2, "chain-base")]
+				single := x.Choose(2, "single") == 1
+				d = pieces.UniformWithMatches(r, m, c, single, cfg.Seed)
+				nm = fmt.Sprintf("uniform256(r=%d,chain=%d,c=%d,single=%v)", r, m, c, single)
 			case 5: // single-copy sweep: every match length 4..258 x the first and last distance of every distance symbol the window allows
 				var L, ds int
 				if cfg.Thorough {
